@@ -321,9 +321,17 @@ impl Server {
 
     pub fn did_change(&mut self, key: &str, text: &str) {
         let uri = self.uri(key);
+        // full-text sync: every third notification carries two changes, the whole text twice over; they apply in order,
+        // so the last one is the document
+        static CALLS: AtomicU64 = AtomicU64::new(0);
+        let changes = if CALLS.fetch_add(1, Ordering::SeqCst) % 3 == 2 {
+            json!([{"text": "# a superseded intermediate text\n\n[stale](n1)\n"}, {"text": text}])
+        } else {
+            json!([{"text": text}])
+        };
         self.notify(
             "textDocument/didChange",
-            json!({"textDocument": {"uri": uri, "version": 1}, "contentChanges": [{"text": text}]}),
+            json!({"textDocument": {"uri": uri, "version": 1}, "contentChanges": changes}),
         );
     }
 
